@@ -20,6 +20,7 @@ RULE = ("(a) shared sampling workload: generated domain expressions (see C01) x 
         "factor dependent on the second or not, grid/random/data/static factors, external parameters), sum, append, "
         "static, repeated calls; non-trivial = a count/pairing/combination equality was evaluated on a returned "
         "sample; distinct = (workload kind, composition shape or expression shape, call kind, n class, k class)")
+RULE += '; data-first products whose second factor yields exactly as many points as the data set has rows'
 REQUIRED_REACH = ["PointSampler._repeat_params", "Domain._repeat_params", "PointSampler._sample_params_independent",
                   "PointSampler._sample_params_dependent", "PointSampler._sample_for_ith_param",
                   "ProductSampler.sample_points", "ConcatSampler.sample_points", "AppendSampler.sample_points",
